@@ -41,6 +41,8 @@ def parse_file(path):
     cur = None
     pending = {"props": None, "tier": None, "timeout": None, "encodes": [], "bounds": "", "expect": None, "doc": []}
 
+    last_doc = [""]
+
     def reset():
         pending.update({"props": None, "tier": None, "timeout": None, "encodes": [], "bounds": "", "expect": None, "doc": []})
     for i, ln in enumerate(lines):
@@ -93,6 +95,21 @@ def parse_file(path):
                 h.doc = " ".join(pending["doc"])
                 h.unwind = pending.get("unwind")
                 out.append(h)
+            reset()
+        elif re.match(r"\w+!\((\w+)\s*,", t) and pending["props"] is not None:
+            # harness defined through a local macro: `h!(name, ...)`
+            h = Harness()
+            h.file = os.path.basename(path)
+            h.fn = re.match(r"\w+!\((\w+)\s*,", t).group(1)
+            h.props = pending["props"]
+            h.tier = pending["tier"] or "quick"
+            h.timeout = pending["timeout"]
+            h.encodes = pending["encodes"] or list(file_enc)
+            h.bounds = pending["bounds"] or file_bounds
+            h.expect_panic = pending["expect"]
+            h.doc = " ".join(pending["doc"]) or last_doc[0]
+            last_doc[0] = h.doc
+            out.append(h)
             reset()
         elif t == "" or t.startswith("#["):
             pass
